@@ -3,3 +3,6 @@ open IrVerif.Scope
 #print axioms C17_total
 #print axioms C17_consistent
 #print axioms C17_idempotent_partial
+#print axioms C17_idempotent
+#print axioms C17_consistent_is_WF
+#print axioms C17_deserialize_WF
